@@ -125,8 +125,8 @@ def cost_section(tier, seed):
                 steps.append((n, s, over))
                 g = drv.ask('(cost %s %s)' % (val_to_sx(v), settings_sx(4, 79, 71, None, 1000, 0)))
                 try:
-                    _ok, calls, dsize, work = g.strip('()').split()
-                    model.append(int(calls) + int(dsize) + int(work))
+                    _ok, calls, work = g.strip('()').split()
+                    model.append(int(calls) + int(work))
                 except Exception:
                     model.append(None)
                 if over:
@@ -154,9 +154,9 @@ def cost_section(tier, seed):
              'ratio_limit': RATIO, 'rows': rows, 'mismatches': 0,
              'samples': [{'family': 'nested_dicts_3keys', 'steps': rows['nested_dicts_3keys']['steps']}],
              'rule': 'LINE events inside /repo/prettyprinter (sys.monitoring) for %d families at n = %s; a family fails if a doubling multiplies the step count by more than %.0f, '
-                     'if the step budget is exceeded, or if steps exceed 4 x the calibrated constant x the model cost (printer invocations + document size + machine work); '
+                     'if the step budget is exceeded, or if steps exceed 4 x the calibrated constant x the model cost (printer invocations + machine and lookahead iterations); '
                      'non-trivial = families measured' % (len(fams), [base * m for m in mults], RATIO)}
     return stats, mism, fails
 
 
-KREF = 60      # measured on the unchanged tree: max over families of steps / model cost is about 40 (see DESIGN.md)
+KREF = 100     # measured on the unchanged tree: max over families of steps / model cost is about 96 (string_words; splitting work is not in the model cost)
